@@ -2,9 +2,9 @@ SPEC = dict(
     id="C16",
     bin="c16",
     coq_dir="C16",
-    coq_targets=["C16/Proofs.vo", "C16/Proofs2.vo", "C16/Proofs3.vo", "C16/Proofs4.vo", "C16/Proofs5.vo", "C16/Examples.vo"],
+    coq_targets=["C16/Proofs.vo", "C16/Proofs2.vo", "C16/Proofs3.vo", "C16/Proofs4.vo", "C16/Proofs5.vo", "C16/Proofs6.vo", "C16/Examples.vo"],
     allowed_axioms=[],
-    level_text=("Unbounded Coq theorems (25, all closed under the global context) about an executable model of the OpenType-layout "
+    level_text=("Unbounded Coq theorems (29, all closed under the global context) about an executable model of the OpenType-layout "
                 "builders, readers and overflow-splitting edits: coverage tables built from ANY u16 glyph list answer membership and "
                 "coverage index exactly as the sorted set through the real binary-search readers, in either format and in the "
                 "overflow-checks profile (coverage_get_spec, coverage_format_choice_irrelevant, coverage_membership); class "
@@ -34,6 +34,7 @@ SPEC = dict(
         "write-fonts/src/graph/splitting/mark2base.rs: get_class_info, split_off_mark_pos, split_off_mark_array, split_off_base_array at the abstract level",
         "write-fonts/src/graph.rs: actually_promote_subtables (lookup header and extension records)",
         "write-fonts/src/graph/splitting.rs: split_subtables (in-place replacement of split subtables, subtable count) at the lookup level; tied by the CSplitCount shards",
+        "write-fonts/src/tables/layout/builders.rs: the public ClassDefBuilder::{checked_add, build_with_mapping} (return values, state after rejected adds, class ids by size order; tied by the CCdbSeq shards)",
         "write-fonts/src/tables/gpos/builders.rs: MarkToLigBuilder::insert_ligature (component list update; tied by the CLigSeq shards)",
         "write-fonts/src/tables/gpos/builders.rs: ClassPairPosBuilder::insert, ClassPairPosSubtable::{can_add,add}, ClassDefBuilder::{can_add,checked_add} (grouping of class rules into subtables; tied by the CClassSeq shards: per-subtable coverage and class counts)",
     ],
